@@ -168,10 +168,19 @@ def call_contract(ex, c, bound, st, n):
     for pn, pt in c.params:
         if pn not in bound:
             raise OutOfSubset('call of %s: argument %s missing (line %d)' % (c.target, pn, getattr(n, 'lineno', 0)))
-        callee.locals[pn] = ex.coerce(bound[pn], pt, st)
+        if pt.kind in ('fnref', 'clsref', 'opaque'):
+            callee.locals[pn] = bound[pn]
+            continue
+        av = bound[pn]
+        if av.pt.kind == 'opt' and pt.kind not in ('opt', 'cell') and av.pt.args[0].kind == pt.kind:
+            av = ex.unwrap_opt(st, av, n)
+        callee.locals[pn] = ex.coerce(av, pt, st)
     for pn, pt in c.free:
         if pn not in st.locals:
             raise OutOfSubset('call of closure %s: free variable %s not in scope' % (c.target, pn))
+        if pt.kind in ('fnref', 'clsref', 'opaque'):
+            callee.locals[pn] = st.locals[pn]
+            continue
         callee.locals[pn] = ex.coerce(st.locals[pn], pt)
     callee.heap = st.heap          # shared: lazily created arrays become visible to the caller
     ln = getattr(n, 'lineno', 0)
@@ -336,8 +345,7 @@ def construct(ex, cls, args, kwargs, st, n):
         raise OutOfSubset('construction of undeclared class %s at line %d' % (cls, n.lineno))
     ref = ex.new_ref(st, TObj(cls))
     obj = SV(TObj(cls), ref)
-    carr = ex.harr(st, '$cls', ArrS(INT, INT))
-    st.heap['$cls'] = Store(carr, ref, IntC(ex.program.class_id(cls)))
+    st.pc.append(Eq(Select(ex.cls_arr(), ref), IntC(ex.program.class_id(cls))))
     init_q = find_method(ex, cls, '__init__')
     if init_q is not None:
         call_function(ex, init_q, args, kwargs, st, n, self_obj=obj)
@@ -528,8 +536,7 @@ def builtin(ex, name, args, kwargs, st, n):
     if name == 'type':
         v = args[0]
         if v.pt.kind == 'obj' or (v.pt.kind == 'opt' and v.pt.args[0].kind == 'obj'):
-            carr = ex.harr(st, '$cls', ArrS(INT, INT))
-            return SV(PT('clsid'), Select(carr, v.t))
+            return SV(PT('clsid'), Select(ex.cls_arr(), v.t))
         if v.pt.kind == 'excv':
             return SV(PT('class'), py=v.py.cls)
         raise OutOfSubset('type() of %r' % (v.pt,))
@@ -620,8 +627,7 @@ def isinstance_term(ex, st, v, cls, n):
         if cname == 'list':
             return ptypes.dt_test('CL', c)
         # user classes: cells holding object references carry their class in $cls
-        carr = ex.harr(st, '$cls', ArrS(INT, INT))
-        return And(ptypes.dt_test('CObj', c), Eq(Select(carr, ptypes.dt_sel('oid', c, INT, 'CObj')), IntC(ex.program.class_id(cname))))
+        return And(ptypes.dt_test('CObj', c), Eq(Select(ex.cls_arr(), ptypes.dt_sel('oid', c, INT, 'CObj')), IntC(ex.program.class_id(cname))))
     if k == 'excv':
         return BoolC(ex.exc_subclass(v.py.cls, cname))
     if k in simple.values() or k in ('none', 'seq', 'tuple', 'pytuple'):
@@ -636,9 +642,8 @@ def isinstance_term(ex, st, v, cls, n):
     if k == 'obj':
         if ex.reg.is_subclass(v.pt.args[0], cname):
             return TRUE
-        carr = ex.harr(st, '$cls', ArrS(INT, INT))
         subs = [c for c in ex.reg.classes if ex.reg.is_subclass(c, cname)]
-        return Or(*[Eq(Select(carr, v.t), IntC(ex.program.class_id(c))) for c in subs])
+        return Or(*[Eq(Select(ex.cls_arr(), v.t), IntC(ex.program.class_id(c))) for c in subs])
     if k == 'opt':
         inner = SV(v.pt.args[0], ptypes.opt_val(v.pt, v.t))
         return And(Not(ptypes.opt_is_none(v.pt, v.t)), isinstance_term(ex, st, inner, cls, n))
